@@ -247,6 +247,11 @@ def sym_array(n):
 R = V("<p>r")
 
 
+def _constant_only(e):
+    from vf import exprdsl
+    return not any(sub[0] == "v" for _, sub in exprdsl.subterms(e))
+
+
 class FGen:
     def __init__(self, rng):
         self.rng = rng
@@ -260,6 +265,11 @@ class FGen:
             return C(rng.choice([0, 1, 2, -1, 3, 0.5, 2.5, 0.1, 1e-05, 2.5e-06, 1e+16]))
         op = rng.choice(["+", "+", "*", "*", "/", "pow", "if", "min", "max"])
         a, b = self.scalar(sc, depth - 1), self.scalar(sc, depth - 1)
+        if _constant_only(a) and (_constant_only(b) or op == "pow"):
+            # arithmetic on constants alone is carried out in floating point by Python before any symbolic value is
+            # involved (0.1**2 is 0.010000000000000002), exactly on the Fortran side of the model: a one-ulp artefact
+            # of the encoding, not of the code under test.  Every arithmetic node gets at least one variable operand.
+            a = V(rng.choice(sc))
         if op == "/":
             # division by zero is outside the claim (gfortran rejects a constant zero denominator at compile time)
             b = V(rng.choice(sc)) if rng.random() < 0.5 else C(rng.choice([1, 2, -1, 0.5, 2.5]))
